@@ -503,6 +503,40 @@ func (it *interp) merge(a, b *disjunct) *disjunct {
 		fa = append(fa, lin.EQ(p.at, p.la)...)
 		fb = append(fb, lin.EQ(p.at, p.lb)...)
 	}
+	// a value that is v + c on one side (the loop index plus one, returned from inside the loop) and something
+	// else on the other: what the side knows about v is restated for the merged atom (v := at - c), so that
+	// "i < len(x)" can survive as "at <= len(x)" when the other side entails it too
+	if os.Getenv("RTPCHECK_NOSUBST") == "" {
+		restate := func(own []lin.Ineq, get func(p pending) *lin.Lin) []lin.Ineq {
+			var extra []lin.Ineq
+			for _, p := range pend {
+				if len(extra) >= 12 {
+					break
+				}
+				l := get(p)
+				v, cst, ok := l.VarPlusConst()
+				if !ok || l.Coef(v) != 1 {
+					continue
+				}
+				e := p.at.AddConst(-cst)
+				k := 0
+				for _, q := range own {
+					if k >= 4 {
+						break
+					}
+					if q.L.Has(v) && len(q.L.Vars()) <= 5 {
+						extra = append(extra, q.Subst(v, e))
+						k++
+					}
+				}
+			}
+			return extra
+		}
+		ea := restate(a.facts, func(p pending) *lin.Lin { return p.la })
+		eb := restate(b.facts, func(p pending) *lin.Lin { return p.lb })
+		fa = append(fa, ea...)
+		fb = append(fb, eb...)
+	}
 	da, db := a.clone(), b.clone()
 	da.facts, db.facts = fa, fb
 	// facts present on both sides are kept for free; for the others only a bounded number of
@@ -595,7 +629,7 @@ func (it *interp) merge(a, b *disjunct) *disjunct {
 			}
 			n := 0
 			for _, q := range src {
-				if q.L.Has(v) && len(q.L.Vars()) <= 3 {
+				if q.L.Has(v) && len(q.L.Vars()) <= 5 {
 					cands = append(cands, q.Subst(v, repl))
 					n++
 					if n > 12 {
